@@ -140,6 +140,25 @@ def declare_mpint(E):
     LEN = "unpack32(%s[%s:%s + 4])" % (BUF, POS, POS)
     WF = "%s >= 4 and %s <= %s - 4" % (avail, LEN, avail)
     BODY = "%s[%s + 4:%s + 4 + %s]" % (BUF, POS, POS, LEN)
+    E.contract(MSG + "add_adaptive_int", params={"n": "nat"}, requires=AT_END,
+               ensures={"pos_at_end": "%s == len(%s)" % (POS, BUF)},
+               cases=[dict(name="small_as_uint32", when="n < 0xff000000",
+                           post={"self.packet.buf": "%s + pack32(n)" % BUF, "self.packet.pos": "len(%s) + 4" % BUF}),
+                      dict(name="large_as_marker_plus_mpint", when="n >= 0xff000000",
+                           post={"self.packet.buf": "%s + b'\\xff' + pack32(len(mpint_spec(n))) + mpint_spec(n)" % BUF,
+                                 "self.packet.pos": "len(%s) + 5 + len(mpint_spec(n))" % BUF})],
+               modifies=["self.packet.buf", "self.packet.pos"], returns="self",
+               raises={"struct.error": "n >= 0xff000000 and len(mpint_spec(n)) >= 2**32"})
+    ALEN = "unpack32(%s[%s + 1:%s + 5])" % (BUF, POS, POS)
+    E.contract(MSG + "get_adaptive_int", requires={"pos_in_buffer": "0 <= %s and %s <= len(%s)" % (POS, POS, BUF)},
+               ensures={"buffer_unchanged": "%s == %s" % (BUF, OBUF)},
+               cases=[dict(name="uint32", when="%s >= 4 and %s[%s] != 0xff" % (avail, BUF, POS),
+                           result="unpack32(%s[%s:%s + 4])" % (BUF, POS, POS), post={"self.packet.pos": "%s + 4" % POS}),
+                      dict(name="marker_then_mpint",
+                           when="%s >= 5 and %s[%s] == 0xff and %s <= %s - 5" % (avail, BUF, POS, ALEN, avail),
+                           result="tcval(%s[%s + 5:%s + 5 + %s])" % (BUF, POS, POS, ALEN),
+                           post={"self.packet.pos": "%s + 5 + %s" % (POS, ALEN)})],
+               modifies=["self.packet.pos"], returns="int", raises={})
     E.contract(MSG + "get_mpint", requires={"pos_in_buffer": "0 <= %s and %s <= len(%s)" % (POS, POS, BUF)},
                ensures={"buffer_unchanged": "%s == %s" % (BUF, OBUF)},
                cases=[dict(name="well_formed", when=WF, result="tcval(%s)" % BODY,
